@@ -87,16 +87,25 @@ func (n *vNode) snapshotWith(f func()) error {
 	gate, taken := g.gate, g.taken
 	g.mu.Unlock()
 	fut := n.raft.Snapshot()
+	ferr := make(chan error, 1)
+	go func() { ferr <- fut.Error() }()
+	var err error
+	finished := false
 	select {
 	case <-taken:
 		f()
+	case err = <-ferr:
+		finished = true // the snapshot ended (was refused) before Persist was reached: f does not run
 	case <-time.After(30 * time.Second):
 	}
 	close(gate)
 	g.mu.Lock()
 	g.gate = nil
 	g.mu.Unlock()
-	return fut.Error()
+	if !finished {
+		err = <-ferr
+	}
+	return err
 }
 
 type vNode struct {
